@@ -18,9 +18,14 @@ export function create(groupList, path, data, updateMode, extra) {
   counter += 1
   // a component with dynamic slots for elements named `c` (slot-scope templates)
   const slotComp = space.defineComponent({ is: 'c', options: { dynamicSlots: true }, template: extra && extra.slotTemplate ? extra.slotTemplate : undefined, data: extra && extra.slotData ? structuredCloneLoose(extra.slotData) : undefined })
+  // elements named `k` are a child component with two untyped properties that renders them (property changes only
+  // show once the child applied them)
+  const using = {}
+  if (extra && extra.using) using.c = slotComp
+  if (groupList['comp/k']) using.k = space.defineComponent({ is: 'k', properties: { p: null, val: null }, template: { content: groupList['comp/k'], groupList } })
   const def = space.defineComponent({
     is: 'root' + counter,
-    using: extra && extra.using ? { c: slotComp } : undefined,
+    using: Object.keys(using).length ? using : undefined,
     template: { content: groupList[path], groupList, updateMode },
     data: structuredCloneLoose(data),
   })
@@ -76,6 +81,7 @@ export function serialize(node) {
     if (marks) { const ks = Object.keys(marks).sort(); if (ks.length) parts.push('marks=' + showValue(marks)) }
     const tag = n.is !== undefined ? n.is : n.tagName
     const inner = []
+    if (n instanceof ge.Component && n.is === 'k') { const sr = n.getShadowRoot(); if (sr) { inner.push('#shadow['); sr.childNodes.forEach((c) => walk(c, inner)); inner.push(']') } }
     if (n.childNodes) n.childNodes.forEach((c) => walk(c, inner))
     acc.push(`<${tag}${parts.length ? ' ' + parts.join(' ') : ''}>${inner.join('')}</${tag}>`)
   }
